@@ -29,3 +29,18 @@ def fromIFixBoth (nt N nta : Nat) : List Nat :=
   arange 1 (2 * nt + 1) ++ arange (1 + 2 * nt + N) (1 + 2 * nt + N + nta * nt * 2)
 
 end DtsVerif.Scatter
+
+namespace DtsVerif.Scatter
+open DtsVerif.Py
+
+/-- `ip_use` of `calibration_single_ended_helper`: the full-layout positions of the unknowns handed to the solver
+(`p_val[ip_use] = out[0]`, `p_cov[np.ix_(ip_use, ip_use)] = out[2]`, the diagonal holds `p_var`), as the source computes it:
+start from all positions of the layout in use, drop `[0]` with `fix_gamma`, `range(1, nx+1)` with `fix_alpha`, `[1]` with `fix_dalpha` -/
+def ipUseS (alphaMode fg fa fd : Bool) (nt nx nta : Nat) : List Nat :=
+  let u0 := if alphaMode then List.range (1 + nx + nt + nta * nt) else List.range (1 + 1 + nt + nta * nt)
+  let u1 := if fg then u0.filter (fun i => !([0].contains i)) else u0
+  let u2 := if fa then u1.filter (fun i => !((arange 1 (nx + 1)).contains i)) else u1
+  let u3 := if fd then u2.filter (fun i => !([1].contains i)) else u2
+  u3
+
+end DtsVerif.Scatter
